@@ -29,7 +29,10 @@ TRUSTED = ["Coq 8.16.1 kernel + vm_compute + primitive floats",
 RULE = ("streaming: 1-3 column streams of 5w-14w samples, base distribution interleaved with bursts of a shifted / rescaled component whose "
         "lengths straddle persistence*window_size (short bursts that fall back under the bound, long ones that alarm), several epochs; "
         "window_size in {10,20,30} (+ tiny 3-6, + 25/50 for persistence*w rounding corners), persistence in {0,.05,.1,.2,.28,.5,.58,1.5}, "
-        "alpha in {.01,.05,.2,.5}, bootstrap_samples in {5,20}, count_ubound in {2,3,5,8}, integer grids (ties) and continuous data; "
+        "alpha in {.01,.05,.2,.5,.8,.95}, bootstrap_samples in {5,20}, count_ubound in {1,2,3,5,8}, integer grids (ties) and continuous data; "
+        "'steered' streams are generated in closed loop with one step of look-ahead on a copy of the running detector so that the divergence "
+        "hugs the bound: above it for exactly (alarm length - 1) evaluated samples, back under it for 1-2 samples, ..., then above until the alarm; "
+        "three hand-made streams put persistence*window_size next to an integer (0.58*50, 0.28*25, 0.2*10); "
         "batch: 6-14 batches of 12-45 rows alternating between the reference distribution and shifted ones, with and without an initial "
         "set_reference, explicit set_reference calls mid-history (also right after a drift); np.random.seed(seed_of(case, step)) before "
         "every call. quantile: np.quantile(list, 1-alpha, 'nearest') on lists of 1-40 values incl. ranks exactly on .5 and duplicates, "
